@@ -1,9 +1,145 @@
 import CotengraVerif.Driver.Util
+import CotengraVerif.Model.Recipes
 
+/-!
+  Driver ops of C01 (also reused by C02/C04):
+
+  * `c01.admissible {net, removed, tree, program}` → `{admissible, why, core}`
+  * `c01.extract {net, removed, tree, order, prefer_einsum, sort?}` → the model's program + inds
+  * `c01.eval {net, removed, program, arrays}` → the model interpreter's result and `einsumSpec`
+
+  JSON of a program:
+  `{"pre": [{"leaf": i, "lhs": [labels], "out": [labels]}],
+    "steps": [{"parent": [leaves], "left": [leaves], "right": [leaves], "tdot": bool,
+               "eq": [[lA],[lB],[out]]            -- when tdot = false
+               "axes": [[axA],[axB]], "perm": [..] | null   -- when tdot = true }]}`
+-/
 namespace Cotengra.Driver.C01
 open Lean Cotengra Cotengra.Driver
 
-/-- ops of property C01 (name them "c01.<op>") -/
-def handlers : List (String × Handler) := []
+def stepOfJson (j : Json) : Except String Step := do
+  let parent ← natList (← field j "parent")
+  let left ← natList (← field j "left")
+  let right ← natList (← field j "right")
+  let tdot ← (← field j "tdot").getBool?
+  if tdot then
+    match ← natListList (← field j "axes") with
+    | [a, b] =>
+      let pj := fieldD j "perm" Json.null
+      let perm ← match pj with
+        | .null => pure none
+        | _ => do pure (some (← natList pj))
+      pure { parent, left, right, recipe := .tdot a b perm }
+    | _ => throw "axes must be a pair"
+  else
+    match ← natListList (← field j "eq") with
+    | [a, b, o] => pure { parent, left, right, recipe := .einsum a b o }
+    | _ => throw "eq must be [lA, lB, out]"
+
+def preOfJson (j : Json) : Except String PreStep := do
+  pure { leaf := ← natOf (← field j "leaf"), lhs := ← natList (← field j "lhs"),
+         out := ← natList (← field j "out") }
+
+def programOf (j : Json) : Except String Program := do
+  let pre ← (← arrOf (fieldD j "pre" (jArr []))).mapM preOfJson
+  let steps ← (← arrOf (← field j "steps")).mapM stepOfJson
+  pure { pre, steps }
+
+def jStep (s : Step) : Json :=
+  let base := [("parent", jNats s.parent), ("left", jNats s.left), ("right", jNats s.right)]
+  match s.recipe with
+  | .einsum a b o => jObj (base ++ [("tdot", jBool false), ("eq", jNatss [a, b, o])])
+  | .tdot a b perm =>
+    jObj (base ++ [("tdot", jBool true), ("axes", jNatss [a, b]),
+      ("perm", match perm with | none => Json.null | some p => jNats p)])
+
+def jProgram (p : Program) : Json :=
+  jObj [("pre", jArr (p.pre.map fun q =>
+            jObj [("leaf", jNat q.leaf), ("lhs", jNats q.lhs), ("out", jNats q.out)])),
+        ("steps", jArr (p.steps.map jStep))]
+
+/-- op `c01.admissible` -/
+def admissible : Handler := fun j => do
+  let n ← netOf (← field j "net")
+  let rm ← natList (fieldD j "removed" (jNats []))
+  let t ← btOf (← field j "tree")
+  let prog ← programOf (← field j "program")
+  let why := admissibleWhy n rm t prog
+  pure (jObj [("admissible", jBool (Admissible n rm t prog)),
+              ("core", jBool (AdmissibleCore n rm prog)),
+              ("why", match why with | none => Json.null | some e => jStr e)])
+
+/-- all subtrees, children first -/
+def subtrees : BT → List BT
+  | .leaf i => [.leaf i]
+  | .node l r => subtrees l ++ subtrees r ++ [.node l r]
+
+/-- op `c01.extract`: `order` = positions in `t.internal` (children-first list of the internal
+    nodes); optional `sort = {proc: [positions], output_contig, contracted_contig}` applies the
+    model of `sort_contraction_indices` first. -/
+def extractOp : Handler := fun j => do
+  let n ← netOf (← field j "net")
+  let rm ← natList (fieldD j "removed" (jNats []))
+  let t ← btOf (← field j "tree")
+  let order ← natList (← field j "order")
+  let pe ← (fieldD j "prefer_einsum" (jBool false)).getBool?
+  let ord := order.filterMap fun k => t.internal[k]?
+  let I ← match j.getObjVal? "sort" with
+    | .ok sj => do
+      let proc ← natList (← field sj "proc")
+      let oc ← (fieldD sj "output_contig" (jBool true)).getBool?
+      let cc ← (fieldD sj "contracted_contig" (jBool true)).getBool?
+      pure (sortInds n rm oc cc (proc.filterMap fun k => t.internal[k]?))
+    | .error _ => pure (n.inds rm)
+  let prog := extractWith n rm I ord pe
+  let why := admissibleWhy n rm t prog
+  pure (jObj [("program", jProgram prog),
+              ("inds", jArr ((subtrees t).map fun s =>
+                 jObj [("leaves", jNats s.leaves), ("inds", jNats (I s))])),
+              ("admissible", jBool (Admissible n rm t prog)),
+              ("why", match why with | none => Json.null | some e => jStr e)])
+
+/-! ### integer arrays -/
+
+def ravel (shape idx : List Nat) : Nat :=
+  (shape.zip idx).foldl (fun acc p => acc * p.1 + p.2) 0
+
+def inBounds (shape idx : List Nat) : Bool :=
+  shape.length == idx.length && (shape.zip idx).all fun p => p.2 < p.1
+
+def arrOfData (shape : List Nat) (data : Array Int) : Arr Int :=
+  { shape, val := fun idx => if inBounds shape idx then data.getD (ravel shape idx) 0 else 0 }
+
+/-- all positions of a shape, row-major -/
+def positions : List Nat → List (List Nat)
+  | [] => [[]]
+  | d :: ds => (List.range d).flatMap fun v => (positions ds).map (v :: ·)
+
+def arrOfJson (j : Json) : Except String (Arr Int) := do
+  let shape ← natList (← field j "shape")
+  let data ← (← arrOf (← field j "data")).mapM intOf
+  pure (arrOfData shape data.toArray)
+
+def jIntArr (a : Arr Int) : Json :=
+  jObj [("shape", jNats a.shape), ("data", jArr ((positions a.shape).map fun idx => jInt (a.val idx)))]
+
+/-- op `c01.eval`: runs the model interpreter on integer arrays and evaluates `einsumSpec`
+    at every output position (row-major over `(n.outRm rm).map size`). -/
+def evalOp : Handler := fun j => do
+  let n ← netOf (← field j "net")
+  let rm ← natList (fieldD j "removed" (jNats []))
+  let prog ← programOf (← field j "program")
+  let arrays ← (← arrOf (← field j "arrays")).mapM arrOfJson
+  let A : Nat → Arr Int := fun i => arrays.getD i { shape := [], val := fun _ => 0 }
+  let out := n.outRm rm
+  let oshape := out.map n.size
+  let spec := (positions oshape).map fun idx => jInt (n.einsumSpec rm A (assoc (out.zip idx)))
+  let runJ := match run prog arrays with
+    | .ok a => jIntArr a
+    | .error e => jObj [("error", jStr e)]
+  pure (jObj [("run", runJ), ("spec", jObj [("shape", jNats oshape), ("data", jArr spec)])])
+
+def handlers : List (String × Handler) :=
+  [("c01.admissible", admissible), ("c01.extract", extractOp), ("c01.eval", evalOp)]
 
 end Cotengra.Driver.C01
